@@ -1,5 +1,6 @@
 import FindVerif.Gen.Tables
 import FindVerif.Model.Lex.Permission
+import FindVerif.Model.Parse
 /-
   Static tie, part 2 (DESIGN.md §0.7): the constant tables of `ast.rs`, `permission.rs` and
   `scheme/target_scheme.rs` as read from the current source by `tools/rs2lean.py`
@@ -7,6 +8,22 @@ import FindVerif.Model.Lex.Permission
 -/
 namespace FV.TieTables
 open FV
+
+/-! ### manager.rs / target_scheme.rs: the escaping functions (anchors of C04 and C20) -/
+
+theorem schemeEscape : Gen.schemeEscape = FV.schemeEscape := by
+  funext s
+  induction s with
+  | nil => rfl
+  | cons c cs ih =>
+    show Gen.escapeChar c ++ Gen.schemeEscape cs = _
+    rw [ih]
+    rfl
+
+theorem isPattern : Gen.isPattern = FV.isPattern := rfl
+theorem terminatorEscape : Gen.terminatorEscape = FV.terminatorEscape := by funext t; cases t <;> rfl
+theorem templateEscape : Gen.templateEscape = FV.templateEscape := by
+  funext s; simp only [Gen.templateEscape, FV.templateEscape, schemeEscape]
 
 theorem sizeMult : Gen.sizeMult = Size.mult := by funext s; cases s <;> rfl
 theorem timeSecs : Gen.timeSecs = TimeSpec.secs := by funext t; cases t <;> rfl
@@ -20,6 +37,147 @@ theorem snippetBody : Gen.snippetBody = FV.snippetBody := by funext f; cases f <
     time fields, matcher templates, helper calls); the 14 remaining arms (the unsupported tests and
     `-xattr-match`) refer to the model and are pinned by their token text. -/
 theorem compileTest : Gen.compileTest = FV.compileTest := by
-  funext clk t st; cases t <;> rfl
+  funext clk t st
+  cases t <;> first | rfl | (simp only [Gen.compileTest, schemeEscape]; rfl)
+
+theorem formatCmp : Gen.formatCmp = FV.formatCmp := by funext c t; cases c <;> rfl
+theorem formatCmp2 {α : Type} : @Gen.formatCmp2 α = @FV.formatCmp2 α := by funext c l r; cases c <;> rfl
+theorem sizeMatching : Gen.sizeMatching = FV.sizeMatching := by funext s; cases s <;> rfl
+theorem compilePermCheck : Gen.compilePermCheck = FV.compilePermCheck := by funext p; cases p <;> rfl
+
+/-- `impl TargetScheme for Action`: 9 arms read from the source (constant texts, which printer is
+    requested with which terminator, the template around the printer name and the format); the three
+    refused actions refer to the model (their payload is a `Debug` rendering). -/
+theorem compileAction : Gen.compileAction = FV.compileAction := by
+  funext a st; cases a <;> rfl
+
+/- `CompiledExpression::scheme(mdt)`: the program template read from the `format!` call is the
+    model's prefix ++ quoted escaped path ++ suffix (C20_one_place is about exactly this shape). -/
+set_option maxRecDepth 16384 in
+theorem scheme : Gen.scheme = Compiled.scheme := by
+  funext c mdt
+  simp only [Gen.scheme, Compiled.scheme, Compiled.prefix_, Compiled.suffix_, schemeEscape, List.append_assoc,
+    List.cons_append, List.nil_append, List.append_nil]
+
+
+/-- `Expression::action` / `Expression::complex_frames` (the anchors of C19, C09, C10): the recursive
+    match read from `ast.rs` is the model's.  The one arm that is not a constant (a formatted print
+    whose last element is not the newline escape) refers to the model and is pinned by its text. -/
+theorem hasAction : Gen.hasAction = Expr.hasAction := by
+  funext e
+  induction e with
+  | test t => rfl
+  | action a => rfl
+  | global g => rfl
+  | positional p => rfl
+  | prec e ih => simp only [Gen.hasAction, Expr.hasAction, ih]
+  | not e ih => simp only [Gen.hasAction, Expr.hasAction, ih]
+  | and a b iha ihb => simp only [Gen.hasAction, Expr.hasAction, iha, ihb]
+  | or a b iha ihb => simp only [Gen.hasAction, Expr.hasAction, iha, ihb]
+  | list a b iha ihb => simp only [Gen.hasAction, Expr.hasAction, iha, ihb]
+
+theorem complexFrames : Gen.complexFrames = Expr.complexFrames := by
+  funext e
+  induction e with
+  | test t => rfl
+  | action a => cases a <;> rfl
+  | global g => rfl
+  | positional p => rfl
+  | prec e ih => simp only [Gen.complexFrames, Expr.complexFrames, ih]
+  | not e ih => simp only [Gen.complexFrames, Expr.complexFrames, ih]
+  | and a b iha ihb => simp only [Gen.complexFrames, Expr.complexFrames, iha, ihb]
+  | or a b iha ihb => simp only [Gen.complexFrames, Expr.complexFrames, iha, ihb]
+  | list a b iha ihb => simp only [Gen.complexFrames, Expr.complexFrames, iha, ihb]
+
+/-- `impl TargetScheme for Expression` and `for Operator`: the recursive code generator read from the
+    source (dispatch to the test / action generators, `(and l r)` for AND and for the comma operator,
+    `(or l r)`, `(not e)`, the two unreachable arms) is the model's `compileExpr`. -/
+theorem compileExpr (clk : Nat → Nat) : ∀ (e : Expr) (st : CState), Gen.compileExpr clk e st = FV.compileExpr clk e st := by
+  intro e
+  induction e with
+  | test t => intro st; simp only [Gen.compileExpr, FV.compileExpr, compileTest]
+  | action a => intro st; simp only [Gen.compileExpr, FV.compileExpr, compileAction]
+  | global g => intro st; rfl
+  | positional p => intro st; rfl
+  | prec e ih => intro st; rfl
+  | not e ih =>
+    intro st
+    simp only [Gen.compileExpr, FV.compileExpr, ih, Gen.seq1]
+    cases FV.compileExpr clk e st with
+    | ok r => cases r; simp only [List.append_assoc]
+    | err x => rfl
+    | panic s => rfl
+  | and a b iha ihb =>
+    intro st
+    simp only [Gen.compileExpr, FV.compileExpr, FV.compileExpr.bin, iha, Gen.seq2]
+    cases FV.compileExpr clk a st with
+    | ok r =>
+      cases r with
+      | mk tl st1 =>
+        simp only [ihb]
+        cases FV.compileExpr clk b st1 with
+        | ok r2 => cases r2; simp only [List.append_assoc]
+        | err x => rfl
+        | panic s => rfl
+    | err x => rfl
+    | panic s => rfl
+  | or a b iha ihb =>
+    intro st
+    simp only [Gen.compileExpr, FV.compileExpr, FV.compileExpr.bin, iha, Gen.seq2]
+    cases FV.compileExpr clk a st with
+    | ok r =>
+      cases r with
+      | mk tl st1 =>
+        simp only [ihb]
+        cases FV.compileExpr clk b st1 with
+        | ok r2 => cases r2; simp only [List.append_assoc]
+        | err x => rfl
+        | panic s => rfl
+    | err x => rfl
+    | panic s => rfl
+  | list a b iha ihb =>
+    intro st
+    simp only [Gen.compileExpr, FV.compileExpr, FV.compileExpr.bin, iha, Gen.seq2]
+    cases FV.compileExpr clk a st with
+    | ok r =>
+      cases r with
+      | mk tl st1 =>
+        simp only [ihb]
+        cases FV.compileExpr clk b st1 with
+        | ok r2 => cases r2; simp only [List.append_assoc]
+        | err x => rfl
+        | panic s => rfl
+    | err x => rfl
+    | panic s => rfl
+
+/-- `scheme::compile`: which manager is chosen (`complex_frames`), when the default print is added
+    (`!action()`), the options text.  The function is plain Rust; the translator matches its statement
+    skeleton and reads the conditions, branches and the default text out of it. -/
+theorem compile : Gen.compile = FV.compile := by
+  funext clk e o
+  simp only [Gen.compile, FV.compile, compileExpr, hasAction, complexFrames]
+  rfl
+
+/-! ### error.rs and lib.rs (anchors of C18 and C13) -/
+
+theorem explainTable : Gen.explainTable = FV.explainTable := rfl
+
+theorem contextStep : Gen.contextStep = SyntaxContext.step := by
+  funext acc c; cases c <;> rfl
+
+/-- The decision table at the end of `ParserError::dispatch` (which error variant, with which
+    keyword, word and explanation) is the model's; the statements before it (reversing the context
+    list, the fold, re-reading the next word with `String::parse`) are pinned by their text. -/
+theorem dispatchDecision (ctx : List Ctx) (rest : Text) :
+    FV.dispatch ctx rest =
+      (let sc := ctx.reverse.foldl Gen.contextStep {}
+       Gen.dispatchDecision sc.test sc.action sc.global sc.description
+         (match parseString rest with | .ok w _ => w | _ => [])) := by
+  rw [contextStep]
+  unfold FV.dispatch Gen.dispatchDecision
+  rfl
+
+theorem runOptionsUpdate : Gen.runOptionsUpdate = RunOptions.update := by
+  funext o g; cases g <;> rfl
 
 end FV.TieTables
